@@ -15,6 +15,10 @@ var borrowed = []struct{ dst, src, engine string }{
 	{"C15", "C14", "seq"},  // "updating the rules of one resource never affects decisions on another": loads / clears of a referenced resource
 	{"C16", "C01", "par"},  // "told of completion exactly once" also when Exit is called from two goroutines at once
 	{"C08", "C09", "coop"}, // "nothing inside the window is lost" also when the rollover is contended
+	{"C07", "C01", "par"},  // the inbound in-flight count the rules read stays exact (never negative) also when a rule check panics
+	{"C07", "C09", "coop"}, // the inbound QPS / RT windows the rules read lose nothing around a contended bucket rollover
+	{"C12", "C03", "seq"},  // "no admission / half-open before a full retry timeout" also when the rule of an open breaker is modified
+	{"C05", "C14", "seq"},  // "scheduled at least duration/threshold apart" also across a reload that keeps the rule's statistic
 }
 
 func init() {
